@@ -4,7 +4,7 @@ from . import core
 
 MEM_BASE = 64 << 20
 
-def judge_exec(ctx, prop, job, resp, input_size, what, replay, require_file_named=None, input_id=None):
+def judge_exec(ctx, prop, job, resp, input_size, what, replay, require_file_named=None, input_id=None, memory_clause=True):
     """Returns 'ok' | 'err' | 'violation' | 'inconclusive'."""
     if 'inconclusive' in resp:
         ctx.inconcl(resp['inconclusive']); return 'inconclusive'
@@ -19,7 +19,7 @@ def judge_exec(ctx, prop, job, resp, input_size, what, replay, require_file_name
         ctx.violation(core.panic_sig(p), 'panic at %s: %s' % (p.get('loc'), (p.get('msg') or '')[:300]), dict(replay, frames=p.get('frames')))
         return 'violation'
     limit = MEM_BASE + 4096 * input_size
-    if resp.get('peak', 0) > limit:
+    if memory_clause and resp.get('peak', 0) > limit:
         ctx.violation('memory:%s' % entry + (':' + input_id if input_id else ''), 'peak allocation %d bytes for a %d byte input (limit %d), largest single request %d' % (resp['peak'], input_size, limit, resp.get('biggest', 0)), replay)
         return 'violation'
     ctx.counters['max_peak_bytes'] = max(ctx.counters.get('max_peak_bytes', 0), resp.get('peak', 0))
